@@ -21,6 +21,7 @@ if [ -n "${VERIF_REPO_OVERRIDE:-}" ]; then
   cp "$here/go.sum" "$work/go.override.sum"
   modflag="-modfile=$work/go.override.mod"
   export REPO_ROOT="$repo"
+  export VERIF_MODFILE="$work/go.override.mod" # the race audit (vlib.RaceAudit) must test the scratch copy too
   trap 'rm -rf "$work" "$bin"' EXIT
 fi
 mkdir -p "$work" "$here/.work/bin" "$here/evidence" "$here/findings/replay"
